@@ -1,4 +1,6 @@
 import Driver.Util
+import Driver.DS.Tread
+import Driver.DS.FreeList
 /-! package `DS` (see CONVENTIONS.md): register components in `step`.
 `cfg` lines this package cares about may be matched here too (they must answer "ok");
 every package sees every `cfg` line. -/
@@ -7,10 +9,18 @@ open Driver
 
 structure St where
   debug : Bool := true
+  tread : Tread.St := {}
+  fl : FreeList.St := {}
 
 /-- `none` = not a component of this package. -/
 def step (st : St) (toks : List String) : Option (St × String) :=
   match toks with
+  | "tread" :: args =>
+    let (t, o) := Tread.step st.debug st.tread args
+    some ({ st with tread := t }, o)
+  | "fl" :: args =>
+    let (t, o) := FreeList.step st.debug st.fl args
+    some ({ st with fl := t }, o)
   | _ => none
 
 /-- `cfg` lines are broadcast to every package. -/
